@@ -898,6 +898,8 @@ class HTTPConnectionPool(ConnectionPool, RequestMethods):
                 method = "GET"
                 # And lose the body not to transfer anything sensitive.
                 body = None
+                # The recorded position belonged to the body that was dropped.
+                body_pos = None
                 headers = HTTPHeaderDict(headers)._prepare_for_method_change()
 
             try:
